@@ -126,6 +126,11 @@ func jsTypeNoNull(m *Model, t T) map[string]any {
 		for _, r := range t.Refs {
 			branches = append(branches, map[string]any{"$ref": "#/definitions/" + r})
 		}
+		if len(t.Fields) > 0 {
+			inline := jsTypeNoNull(m, T{Kind: KStruct, Fields: t.Fields})
+			delete(inline, "additionalProperties")
+			branches = append(branches, inline)
+		}
 		s["allOf"] = branches
 	case KUStructs:
 		var branches []any
@@ -383,6 +388,11 @@ func oaType(m *Model, t T) map[string]any {
 		var branches []any
 		for _, r := range t.Refs {
 			branches = append(branches, map[string]any{"$ref": "#/components/schemas/" + r})
+		}
+		if len(t.Fields) > 0 {
+			inline := oaType(m, T{Kind: KStruct, Fields: t.Fields})
+			delete(inline, "additionalProperties")
+			branches = append(branches, inline)
 		}
 		s["allOf"] = branches
 	case KUStructs:
